@@ -110,6 +110,7 @@ type TypeV struct{ T *DT }
 
 // GenT: abstract ddpIrType of the generator
 type GenT struct {
+	Fields []*GenT // field types of a struct class, when the rule needs them
 	Kind string // int float byte bool char string any void list struct
 	Elem *GenT
 	Name string
@@ -1027,7 +1028,23 @@ func (in *Interp) store(pkg *packages.Package, env *Env, l ast.Expr, v Val) {
 	case *ast.StarExpr:
 		in.store(pkg, env, x.X, v)
 	case *ast.IndexExpr:
-		// element writes are not tracked
+		// writes into a known map are tracked (the map value is rebuilt and stored back into its holder); other element writes are not
+		if mv, ok := in.eval(pkg, env, x.X).(MapV); ok {
+			k := in.eval(pkg, env, x.Index)
+			nm := MapV{Keys: append([]Val{}, mv.Keys...), Vals: append([]Val{}, mv.Vals...)}
+			found := false
+			for i, kk := range nm.Keys {
+				if t, known := eqVal(kk, k); known && t {
+					nm.Vals[i] = v
+					found = true
+				}
+			}
+			if !found {
+				nm.Keys = append(nm.Keys, k)
+				nm.Vals = append(nm.Vals, v)
+			}
+			in.store(pkg, env, x.X, nm)
+		}
 	}
 }
 
@@ -1180,6 +1197,15 @@ func (in *Interp) eval(pkg *packages.Package, env *Env, e ast.Expr) Val {
 				return TupleV{Unk{"map miss"}, Unk{"map miss"}}
 			}
 			return Unk{"map miss"}
+		}
+		// lookup in a nil map yields the zero value
+		if _, isNil := base.(NilV); isNil {
+			if mt, ok := info.TypeOf(x.X).Underlying().(*types.Map); ok {
+				if tv, isTuple := info.Types[e].Type.(*types.Tuple); isTuple && tv.Len() == 2 {
+					return TupleV{in.zero(mt.Elem()), boolV(false)}
+				}
+				return in.zero(mt.Elem())
+			}
 		}
 		// c.functions["pow"] etc.
 		if s, ok := idx.(StrV); ok {
@@ -1347,7 +1373,16 @@ func (in *Interp) field(base Val, name string, sel *types.Selection) Val {
 			return &IRTy{Name: "type(" + b.String() + ")"}
 		case "listType":
 			return &GenT{Kind: "list", Elem: b}
-		case "fieldIrTypes", "fieldDDPTypes", "name":
+		case "fieldIrTypes":
+			if b.Fields != nil {
+				sv := SliceV{}
+				for _, f := range b.Fields {
+					sv.Elems = append(sv.Elems, f)
+				}
+				return sv
+			}
+			return Unk{"struct fields"}
+		case "fieldDDPTypes", "name":
 			return Unk{"struct fields"}
 		}
 		if _, ok := sel.Type().(*types.Pointer); ok && strings.Contains(sel.Type().String(), "ir.Func") {
